@@ -146,8 +146,19 @@ M('E14', 'src/xdoctest/doctest_example.py', "        self._unmatched_stdout = []
   "        self._skipped_parts = []", ['C11'], 'carried-over output not reset at the start of a run')
 M('E15', 'src/xdoctest/directive.py', "self._global_state = copy.deepcopy(DEFAULT_RUNTIME_STATE)",
   "self._global_state = copy.copy(DEFAULT_RUNTIME_STATE)", ['C11'], 'shallow copy of the default state')
-M('U1', 'src/xdoctest/utils/util_stream.py', None, None, ['C12'], 'stdout not restored on error')
-M('U2', 'src/xdoctest/utils/util_import.py', None, None, ['C12', 'C17'], 'sys.path entry left behind on error')
+M('U1', 'src/xdoctest/utils/util_stream.py', """            except Exception:  # nocover
+                raise
+            finally:
+                self.stop()""", """            except Exception:  # nocover
+                raise
+            else:
+                if type_ is None or issubclass(type_, Exception):
+                    self.stop()""", ['C12'], 'stdout not restored when SystemExit/KeyboardInterrupt passes through')
+M('U2', 'src/xdoctest/utils/util_import.py', """        need_recover = False
+        if len(sys.path) <= self.index:  # nocover""", """        need_recover = False
+        if ex_type is not None:
+            return None
+        if len(sys.path) <= self.index:  # nocover""", ['C12', 'C17'], 'sys.path entry left behind when the import fails')
 M('U3', 'src/xdoctest/doctest_example.py',
   """                                else:
                                     asyncio.run(eval(code, test_globals))""",
@@ -226,6 +237,10 @@ M('PL2', 'src/xdoctest/plugin.py', "            dtest.config.update(self._examp_
 M('E17', 'src/xdoctest/doctest_example.py', "        self.global_namespace.clear()\n",
   "        if self.module is not None:\n            self.module.__dict__.update({k: v for k, v in self.global_namespace.items() if k in self.module.__dict__})\n        self.global_namespace.clear()\n",
   ['C11'], 'doctest assignments written back to the module globals')
+
+
+M('U4', 'src/xdoctest/doctest_example.py', "        with warnings.catch_warnings(record=True) as self.warn_list:\n            for partx, part in enumerate(self._parts):",
+  "        self.warn_list = []\n        if True:\n            for partx, part in enumerate(self._parts):", ['C12', 'C11'], 'catch_warnings around the part loop dropped')
 
 
 def make_copy():
